@@ -1,14 +1,18 @@
 import Zc.Proofs.PostState
+import Zc.Proofs.Listeners
 /-! # C05 — record cache: all lookup paths agree with an RFC 6762 §10 reference model
 
 `Cache` (`Zc/Model/Cache.lean`) is `DNSCache` as the code has it: a dict of dicts keyed by lower-cased owner
 name plus the SRV index keyed by lower-cased target host, driven by `RecordManager.async_updates_from_response`
-(`Zc.ingest`) and the periodic purge (`Zc.expire`).  The reference model (`Zc/Model/CacheSpec.lean`, namespace
+(`Zc.ingest`) and the periodic purge (`Zc.expire`).  The reference store (`Zc/Model/CacheSpec.lean`, namespace
 `Flat`) is a plain list of records in arrival order with at most one record per identity; its lookups are filters.
-Both are driven by the *same* record-manager code (`Zc.ingest` is written over an abstract cache), so the
-theorems below say: whatever sequence of datagrams and purges arrives, the indexed cache and the flat store
-hold the same records with the same creation time and TTL, on every lookup path.  What the record manager
-does to the flat store is characterised declaratively in C06 (`C06_post_state`).
+**Both are driven by the same record-manager code** (`Zc.ingest` is written over an abstract cache), so
+`C05_paths_agree` is a *container refinement*: whatever sequence of datagrams and purges arrives, the indexed cache
+and the flat store hold the same records with the same creation time and TTL, on every lookup path.  The RFC 6762 §10
+content — what one datagram does to one identity — is the declarative `PostState` (`Zc/Proofs/PostState.lean`), proved
+for the flat store there and composed with the refinement here: `C05_datagram_step` says that what `get` /
+`async_get_unique` return for an identity after one more datagram is `PostState` of what they returned before (C06 states
+the same for `ingest`'s own output).  The independent reference of stage O is `harness/cachecommon.py:Ref`.
 
 `str.lower` is an arbitrary function `lower`.  The model mirrors the code with the D4 repair
 (`notes/fixes/D4.diff`); on the unrepaired tree the correspondence check reports the divergence of `get`
@@ -74,6 +78,10 @@ structure PathsAgree (c : Cache) (s : List Rec) : Prop where
   getAllByDetails : ∀ n t cl, c.getAllByDetails lower n t cl = Flat.getAllByDetails lower s n t cl
   entriesWithName : ∀ n, c.entriesWithName lower n = Flat.entriesWithName lower s n
   entriesWithServer : ∀ n, c.entriesWithServer lower n = Flat.entriesWithServer lower s n
+  /-- the event-loop-only twins `async_entries_with_name`, `async_entries_with_server`, `async_all_by_details` -/
+  asyncEntriesWithName : ∀ n, c.asyncEntriesWithName lower n = Flat.entriesWithName lower s n
+  asyncEntriesWithServer : ∀ n, c.asyncEntriesWithServer lower n = Flat.entriesWithServer lower s n
+  asyncAllByDetails : ∀ n t cl, c.asyncAllByDetails lower n t cl = Flat.getAllByDetails lower s n t cl
   namesNodup : c.names.Nodup
   names : ∀ k, k ∈ c.names ↔ Flat.hasName lower s k
 
@@ -85,7 +93,7 @@ history: the same records, the same creation times and TTLs, in the same (arriva
 theorem C05_paths_agree (evs : List Event) : PathsAgree lower (cacheAfter lower evs) (specAfter lower evs) := by
   have h := (Refines.empty lower).runEvents (by simp [Flat.WF]) evs
   exact ⟨h.1.get h.2, h.1.getUnique, h.1.getByDetails, h.1.getAllByDetails, h.1.entriesWithName,
-    h.1.entriesWithServer, h.1.names.1, h.1.names.2⟩
+    h.1.entriesWithServer, h.1.entriesWithName, h.1.entriesWithServer, h.1.getAllByDetails, h.1.names.1, h.1.names.2⟩
 
 /-- the reference store never holds two records of one identity -/
 theorem C05_spec_one_per_identity (evs : List Event) :
@@ -112,11 +120,65 @@ theorem C05_purge_exact (evs : List Event) (now : Ms) :
       rw [← isExpired_iff]; simp)
   have hw' : Flat.WF lower ((specAfter lower evs).filter (fun e => !(e.isExpired now))) := List.Pairwise.filter _ h.2
   refine ⟨c', l, hc, e1 ▸ hp, ?_, e2 ▸ ⟨hr.get hw', hr.getUnique, hr.getByDetails, hr.getAllByDetails, hr.entriesWithName,
-    hr.entriesWithServer, hr.names.1, hr.names.2⟩⟩
+    hr.entriesWithServer, hr.entriesWithName, hr.entriesWithServer, hr.getAllByDetails, hr.names.1, hr.names.2⟩⟩
   -- distinct identities ⇒ distinct records
   have hd : ((specAfter lower evs).filter (fun e => e.isExpired now)).Nodup :=
     (List.Pairwise.filter _ h.2).imp (fun hab heq => hab (by rw [heq]))
   exact hp.symm.nodup_iff.1 hd |> fun x => x
+
+/-- **C05 (purge, as the listeners see it).**  After any history, the periodic purge with any listener set: it does not
+raise; every listener registered when it starts is handed, once, the list `(record, record)` of exactly the purged records
+(`reported` of `C05_purge_exact`: a duplicate-free permutation of the expired records) — also when nothing expired — and then,
+once, the complete call, whatever the callbacks do to the listener set; waiters are not notified (`async_updates_complete(False)`);
+the cache the listeners see is the purged one. -/
+theorem C05_purge_listeners (evs : List Event) (order : List Nat → List Nat) (ls : List Nat) (now : Ms)
+    (react1 react2 : Nat → List ListenerAct) :
+    ∃ d reported, deliverPurge lower order (cacheAfter lower evs) ls now react1 react2 = .ok d
+      ∧ expire (Cache.ops lower) (cacheAfter lower evs) now = .ok (d.cache, reported)
+      ∧ d.pairs = reported.map (fun r => (r, some r))
+      ∧ d.round1 = order ls ∧ d.round2 = order (notifyRound (order ls) react1).live
+      ∧ d.err = none ∧ d.notify = false := by
+  obtain ⟨c', reported, hc, _⟩ := C05_purge_exact lower evs now
+  have hdef : ∀ (l : List Nat) (r : Nat → List ListenerAct), notifyRoundWith true true l r = notifyRound l r := fun _ _ => rfl
+  have hd : deliverPurge lower order (cacheAfter lower evs) ls now react1 react2 = .ok
+      { cache := c', pairs := reported.map (fun r => (r, some r)),
+        listeners := (notifyRound (order (notifyRound (order ls) react1).live) react2).live,
+        round1 := (notifyRound (order ls) react1).called,
+        round2 := (notifyRound (order (notifyRound (order ls) react1).live) react2).called,
+        err := (notifyRound (order (notifyRound (order ls) react1).live) react2).err, notify := false } := by
+    unfold deliverPurge deliverPurgeWith
+    rw [purge_expire_now_eq, hc]
+    simp only [updates_iterates_copy_eq, complete_iterates_copy_eq, remove_listener_catches_keyerror_eq, hdef, bind, Except.bind,
+      notifyRound_ok, pure, Except.pure]
+  exact ⟨_, reported, hd, hc, rfl, notifyRound_called _ _, notifyRound_called _ _, notifyRound_ok _ _, rfl⟩
+
+theorem cacheAfter_snoc (hist : List Event) (ev : Event) :
+    cacheAfter lower (hist ++ [ev]) = stepEvent lower (Cache.ops lower) (cacheAfter lower hist) ev := by
+  unfold cacheAfter runEvents
+  rw [List.foldl_append]; rfl
+
+/-- **C05 (one more datagram, per identity — the RFC 6762 §10 content on the cache's own lookup paths).**  After any
+history, for every record identity `q`: what `get` and `async_get_unique` return for `q` after one more datagram `recs` at
+`now` is `PostState` of what they returned before it — removed iff cached and withdrawn; else refreshed to (arrival time,
+last non-zero TTL, pointer TTLs floored to 1125 s), or marked `(now, 1)` iff the cache-flush rule applies, or untouched; a new
+record is stored with (arrival time, floored TTL).  (All other paths return the same records by `C05_paths_agree`.) -/
+theorem C05_datagram_step (evs : List Event) (now : Ms) (recs : List Rec) (q : Rec) :
+    PostState lower now recs q ((cacheAfter lower evs).get lower q) ((cacheAfter lower (evs ++ [.datagram now recs])).get lower q)
+    ∧ PostState lower now recs q ((cacheAfter lower evs).getUnique lower q)
+        ((cacheAfter lower (evs ++ [.datagram now recs])).getUnique lower q) := by
+  have h0 := (Refines.empty lower).runEvents (by simp [Flat.WF]) evs
+  have h1 := (Refines.empty lower).runEvents (by simp [Flat.WF]) (evs ++ [.datagram now recs])
+  obtain ⟨o, ho, hpost⟩ := Flat.postState (lower := lower) (runEvents lower (Flat.ops lower) [] evs) now recs
+  have hspec : runEvents lower (Flat.ops lower) [] (evs ++ [.datagram now recs]) = o.cache := by
+    unfold runEvents
+    rw [List.foldl_append]
+    simp only [List.foldl_cons, List.foldl_nil, stepEvent]
+    have : List.foldl (stepEvent lower (Flat.ops lower)) [] evs = runEvents lower (Flat.ops lower) [] evs := rfl
+    rw [this, ho]
+  have hp := hpost q
+  unfold cacheAfter
+  rw [h0.1.get h0.2 q, h1.1.get h1.2 q, h0.1.getUnique q, h1.1.getUnique q, hspec]
+  exact ⟨hp, hp⟩
 
 /-- an event that neither withdraws, nor refreshes, nor flushes the record of `q`, nor purges at or after `deadline` -/
 def Quiet (q : Rec) (deadline : Ms) : Event → Prop
@@ -190,10 +252,20 @@ example :
   · intro r hr; simp at hr; subst hr; decide
   · intro u hu; simp at hu; subst hu; decide
 
-/-- non-vacuity: a history that exercises refresh, duplicate-in-datagram and purge -/
+/-- non-vacuity of `C05_paths_agree`: the same new pointer record twice in one datagram (the D4 input) is one record of the
+reference store -/
 example : ∃ evs : List Event, (specAfter id evs).length = 1 :=
   ⟨[.datagram 1000 [⟨"_x._tcp.local.", 12, 1, false, 4500, 0, .ptr "a._x._tcp.local."⟩,
                     ⟨"_x._tcp.local.", 12, 1, false, 4500, 0, .ptr "a._x._tcp.local."⟩]], by decide⟩
+
+/-- `C05_purge_exact` at work: TXT records with TTL 1 s and 2 s received at 1000 ms; the purge at 2000 ms reports exactly
+the first and keeps the second -/
+example :
+    let t1 : Rec := ⟨"a.local.", 16, 1, false, 1, 0, .txt [1]⟩
+    let t2 : Rec := ⟨"a.local.", 16, 1, false, 2, 0, .txt [2]⟩
+    ((expire (Cache.ops id) (cacheAfter id [.datagram 1000 [t1, t2]]) 2000).toOption.map
+      (fun o => (o.2.map (fun r => r.ttl), (o.1.entriesWithName id "a.local.").map (fun r => r.ttl)))) = some ([1], [2]) := by
+  decide
 
 end
 end Zc
